@@ -62,9 +62,6 @@ func transparentCallee(ci ssa.CallInstruction) *ssa.Function {
 	if knownFuncs[fnName(f)] {
 		return nil
 	}
-	if f.Recover != nil {
-		return nil
-	}
 	return f
 }
 
